@@ -1246,9 +1246,11 @@ Lemma pbt_new n s st :
   pbt_inv n s ->
   let tr := pb_trials s ++ [{| pt_id := n; pt_score := None; pt_last := 0; pt_stopped := false |}] in
   pbt_inv (n + 1)%Z {| pb_trials := tr; pb_stack := st |} /\
-  incl (pbt_needed {| pb_trials := tr; pb_stack := st |}) (n :: pbt_needed s).
+  incl (pbt_needed {| pb_trials := tr; pb_stack := st |}) (n :: pbt_needed s) /\
+  incl (n :: pbt_active s) (pbt_active {| pb_trials := tr; pb_stack := st |}).
 Proof.
-  intros [H0 [H1 H2]] tr. split.
+  intros [H0 [H1 H2]] tr. split; [|split].
+  3:{ unfold pbt_active. simpl. unfold tr. rewrite map_app. simpl. intros x [<-|Hx]; apply in_or_app; [right; now left | now left]. }
   - unfold pbt_inv. simpl. unfold tr. rewrite map_app. simpl. split; [lia|]. split.
     + intros i Hi. apply in_app_or in Hi as [Hi|[<-|[]]]; [specialize (H1 i Hi)|]; lia.
     + apply NoDup_snoc; [exact H2|]. intros Hn. specialize (H1 n Hn). lia.
@@ -1258,10 +1260,12 @@ Qed.
 
 Lemma pbt_H_sug p : forall n s g s' sg, pbt_inv n s -> suggest (pbt_sched p) s n g = (s', sg) ->
   match sg with
-  | SNone => pbt_inv n s' /\ incl (pbt_needed s') (pbt_needed s)
-  | SNew => pbt_inv (n + 1)%Z s' /\ incl (pbt_needed s') (n :: pbt_needed s)
-  | SFrom j => pbt_inv (n + 1)%Z s' /\ incl (pbt_needed s') (n :: pbt_needed s) /\ (true = true -> In j (pbt_needed s))
-  | SResume i => pbt_inv n s' /\ incl (pbt_needed s') (pbt_needed s) /\ In i (pbt_needed s)
+  | SNone => pbt_inv n s' /\ incl (pbt_needed s') (pbt_needed s) /\ incl (pbt_active s) (pbt_active s')
+  | SNew => pbt_inv (n + 1)%Z s' /\ incl (pbt_needed s') (n :: pbt_needed s) /\ incl (n :: pbt_active s) (pbt_active s')
+  | SFrom j => pbt_inv (n + 1)%Z s' /\ incl (pbt_needed s') (n :: pbt_needed s) /\ incl (n :: pbt_active s) (pbt_active s') /\
+               (true = true -> In j (pbt_needed s))
+  | SResume i => pbt_inv n s' /\ incl (pbt_needed s') (pbt_needed s) /\ incl (i :: pbt_active s) (pbt_active s') /\
+                 In i (pbt_needed s)
   end.
 Proof.
   intros n s g s' sg Hinv E. simpl in E. unfold pbt_suggest in E.
@@ -1271,21 +1275,23 @@ Proof.
     + pose proof (quantiles_upper_live (pp_qf p) (pb_trials s)) as Hu.
       destruct (snd (quantiles (pp_qf p) (pb_trials s))) as [|u upper].
       * injection E as <- <-. exact (pbt_new n s st Hinv).
-      * injection E as <- <-. destruct (pbt_new n s st Hinv) as [A B]. split; [exact A|]. split; [exact B|]. intros _.
+      * injection E as <- <-. destruct (pbt_new n s st Hinv) as [A [B Cc]]. split; [exact A|]. split; [exact B|].
+        split; [exact Cc|]. intros _.
         apply Hu. match goal with |- In (if ?cnd then _ else _) _ => destruct cnd eqn:Em end; [|now left].
         apply (mem_Z_In g (u :: upper)). exact Em.
-    + injection E as <- <-. destruct (pbt_new n s st Hinv) as [A B]. split; [exact A|]. split; [exact B|]. intros _.
+    + injection E as <- <-. destruct (pbt_new n s st Hinv) as [A [B Cc]]. split; [exact A|]. split; [exact B|].
+      split; [exact Cc|]. intros _.
       unfold pbt_stopped in Es. destruct (pbt_find (pb_trials s) j) as [t|] eqn:Ef; [|discriminate].
       destruct (pbt_find_In _ _ _ Ef) as [Hin <-]. unfold pbt_needed. apply in_map.
       apply filter_In. split; [exact Hin|]. now rewrite Es.
 Qed.
 
 Lemma pbt_H_rem p : forall n s s' l, pbt_inv n s -> removables (pbt_sched p) s = (s', l) ->
-  pbt_inv n s' /\ incl (pbt_needed s') (pbt_needed s) /\
+  pbt_inv n s' /\ incl (pbt_needed s') (pbt_needed s) /\ incl (pbt_active s) (pbt_active s') /\
   forall i, In i l -> ~ In i (pbt_needed s') /\ (0 <= i < n)%Z.
 Proof.
   intros n s s' l Hinv E. simpl in E. injection E as <- <-.
-  split; [exact Hinv|]. split; [apply incl_refl|]. intros i [].
+  split; [exact Hinv|]. split; [apply incl_refl|]. split; [apply incl_refl|]. intros i [].
 Qed.
 
 Theorem pbt_clone_source_alive : forall p c its pre j t post, speculative c = false ->
@@ -1293,8 +1299,8 @@ Theorem pbt_clone_source_alive : forall p c its pre j t post, speculative c = fa
   forall w, ~ In (EDelete j w) pre.
 Proof.
   intros p c its pre j t post Hs E.
-  apply (copy_has_checkpoint (pbt_sched p) c Hs true pbt_needed pbt_inv (pbt_H_res true p) (pbt_H_sug p) (pbt_H_rem p)
-           (fun n s i H => conj H (incl_refl _)) eq_refl pbt0 its pre j t post); [|exact E].
+  apply (copy_has_checkpoint (pbt_sched p) c Hs true pbt_needed pbt_active pbt_inv (pbt_H_res true p) (pbt_H_sug p) (pbt_H_rem p)
+           (fun n s i H => conj H (conj (incl_refl _) (fun x Hx _ => Hx))) eq_refl pbt0 its pre j t post); [|exact E].
   split; [lia|]. split; [intros x []|constructor].
 Qed.
 
@@ -1365,16 +1371,18 @@ Qed.
 (* ==== PBT before the fix: exactly when a clone is started from a deleted checkpoint ==== *)
 Lemma pbt_H_sug_unfixed p : forall n s g s' sg, pbt_inv n s -> suggest (pbt_sched_unfixed p) s n g = (s', sg) ->
   match sg with
-  | SNone => pbt_inv n s' /\ incl (pbt_needed s') (pbt_needed s)
-  | SNew => pbt_inv (n + 1)%Z s' /\ incl (pbt_needed s') (n :: pbt_needed s)
-  | SFrom j => pbt_inv (n + 1)%Z s' /\ incl (pbt_needed s') (n :: pbt_needed s) /\ (false = true -> In j (pbt_needed s))
-  | SResume i => pbt_inv n s' /\ incl (pbt_needed s') (pbt_needed s) /\ In i (pbt_needed s)
+  | SNone => pbt_inv n s' /\ incl (pbt_needed s') (pbt_needed s) /\ incl (pbt_active s) (pbt_active s')
+  | SNew => pbt_inv (n + 1)%Z s' /\ incl (pbt_needed s') (n :: pbt_needed s) /\ incl (n :: pbt_active s) (pbt_active s')
+  | SFrom j => pbt_inv (n + 1)%Z s' /\ incl (pbt_needed s') (n :: pbt_needed s) /\ incl (n :: pbt_active s) (pbt_active s') /\
+               (false = true -> In j (pbt_needed s))
+  | SResume i => pbt_inv n s' /\ incl (pbt_needed s') (pbt_needed s) /\ incl (i :: pbt_active s) (pbt_active s') /\
+                 In i (pbt_needed s)
   end.
 Proof.
   intros n s g s' sg Hinv E. simpl in E. unfold pbt_suggest in E.
   destruct (pb_stack s) as [|j st]; simpl in E; injection E as <- <-.
   - exact (pbt_new n s [] Hinv).
-  - destruct (pbt_new n s st Hinv) as [A B]. split; [exact A|]. split; [exact B|discriminate].
+  - destruct (pbt_new n s st Hinv) as [A [B Cc]]. split; [exact A|]. split; [exact B|]. split; [exact Cc|discriminate].
 Qed.
 
 (* (a) when the clone decision is taken, the chosen source's checkpoint has never been deleted *)
@@ -1383,8 +1391,9 @@ Theorem pbt_unfixed_source_alive_at_decision : forall p c its pre i j post, spec
   forall w, ~ In (EDelete j w) pre.
 Proof.
   intros p c its pre i j post Hs E.
-  apply (clone_source_alive_at_decision (pbt_sched_unfixed p) c Hs false pbt_needed pbt_inv (pbt_H_res false p)
-           (pbt_H_sug_unfixed p) (pbt_H_rem p) (fun n s i H => conj H (incl_refl _)) pbt0 its pre i j post); [|exact E].
+  apply (clone_source_alive_at_decision (pbt_sched_unfixed p) c Hs false pbt_needed pbt_active pbt_inv (pbt_H_res false p)
+           (pbt_H_sug_unfixed p) (pbt_H_rem p) (fun n s i H => conj H (conj (incl_refl _) (fun x Hx _ => Hx)))
+           pbt0 its pre i j post); [|exact E].
   split; [lia|]. split; [intros x []|constructor].
 Qed.
 
